@@ -72,6 +72,13 @@ def utm_lonlat_needs_no_crs(prog: Program) -> List[Instance]:
                 return (isinstance(e.ops[0], ast.Is) and p) or (isinstance(e.ops[0], ast.IsNot) and not p)
             return False
         ok = any(_none_side(e, p) for e, p in cs)
+        if not ok:
+            # the geometry may arrive through a local that every definition either re-projected or bound under `crs is None`
+            recvs = [x.value for x in ast.walk(v) if isinstance(x, ast.Attribute) and x.attr in ("boundingbox", "bbox") and isinstance(x.value, ast.Name)]
+            for rv in recvs:
+                defs = [d for d in walk_own(f.node) if isinstance(d, ast.Assign) and len(d.targets) == 1 and isinstance(d.targets[0], ast.Name) and d.targets[0].id == rv.id]
+                if defs and all(any(isinstance(x, ast.Call) and call_name(x) in ("to_crs", "_to_crs") for x in ast.walk(d.value)) or any(_none_side(e, p) for e, p in conds_at(cond, d)) for d in defs):
+                    ok = True
         out.append(Instance("R-GUARDSEQ", f"{f.qual}#lonlat-as-is", OK if ok else BAD,
                             "a geometry's coordinates are taken as lon/lat only when it has no CRS" if ok else
                             f"`{short(st, 60)}` takes the geometry's own coordinates as WGS84 lon/lat under {[short(e) for e, p in cs if p][-1:]}: a geographic CRS that is not Greenwich degrees (EPSG:4806 Monte Mario, EPSG:4807 grads) gets a UTM zone whose valid area misses the raster", f.where(st)))
